@@ -211,6 +211,32 @@ func (lex *Lexer) Reset() {
 	lex.priorRune = [20]rune{}
 }
 
+// finishText is called by the parser when the token stream has run
+// dry at top level, that is, when the text handed in is complete.
+// A final atom, operator or line comment that is not followed by a
+// delimiter is still pending in the lexer at that point: emit it, as
+// if a newline followed, so that the last token of a text is not lost.
+// An unterminated string literal means the text is unfinished.
+func (lex *Lexer) finishText() (flushed bool, needMore bool, err error) {
+	switch lex.state {
+	case LexerStrLit, LexerStrEscaped:
+		return false, true, nil
+	case LexerNormal:
+		if lex.buffer.Len() == 0 {
+			return false, false, nil
+		}
+	case LexerCommentLine, LexerBuiltinOperator,
+		LexerFreshAssignOrColon, LexerFirstFwdSlash:
+	default:
+		return false, false, nil
+	}
+	n := len(lex.tokens)
+	linenum := lex.linenum
+	err = lex.LexNextRune('\n')
+	lex.linenum = linenum
+	return len(lex.tokens) > n, false, err
+}
+
 func (lex *Lexer) EmptyToken() Token {
 	return Token{}
 }
